@@ -326,7 +326,12 @@ fn c11_emitted(ctx: &CaseCtx) -> CaseReport {
 }
 
 fn tx_common(ctx: &CaseCtx, rep: &mut CaseReport, focus: crate::fam::txscript::TxFocus, max_total: usize) -> (crate::fam::txscript::TxCfg, crate::sim::CaseRun<crate::fam::txscript::TxOutcome>) {
-    let cfg = crate::fam::txscript::generate(ctx.case_seed, focus, max_total);
+    tx_common_opts(ctx, rep, focus, max_total, false)
+}
+
+fn tx_common_opts(ctx: &CaseCtx, rep: &mut CaseReport, focus: crate::fam::txscript::TxFocus, max_total: usize, snapshots: bool) -> (crate::fam::txscript::TxCfg, crate::sim::CaseRun<crate::fam::txscript::TxOutcome>) {
+    let mut cfg = crate::fam::txscript::generate(ctx.case_seed, focus, max_total);
+    cfg.keep_snapshots = snapshots && cfg.writer.total < 300_000;
     rep.desc = cfg.describe();
     let run = crate::fam::txscript::run_tx(ctx.case_seed, &cfg);
     if let Some(p) = &run.panicked {
@@ -339,7 +344,7 @@ fn c05_tx(ctx: &CaseCtx) -> CaseReport {
     let mut rep = CaseReport::new(ctx.family, ctx.index, ctx.case_seed);
     // both the window focus and the silence sub-family of the retransmit focus
     let focus = if ctx.index % 4 == 3 { crate::fam::txscript::TxFocus::Retransmit } else { crate::fam::txscript::TxFocus::Window };
-    let (cfg, run) = tx_common(ctx, &mut rep, focus, if ctx.tier == Tier::Quick { 150_000 } else { 600_000 });
+    let (cfg, run) = tx_common_opts(ctx, &mut rep, focus, if ctx.tier == Tier::Quick { 150_000 } else { 600_000 }, ctx.index % 2 == 0);
     let view = WireView::build(&run.events);
     if let Some(m) = mon::sender::build(&run.events, &view, cfg.real_initiates, cfg.sock.min_payload(!cfg.ipv6)) {
         mon::c05::check(&mut rep, &m, &run.events);
